@@ -228,6 +228,8 @@ def evaluate(cases, impl, model, known_letters):
         fails = spec_on_impl(c, i, m, pkg_imports)
         mf = fields(m)
         letters = "" if mf.get("R", "-") == "-" else mf.get("R", "")
+        if not mf.get("T", ""):
+            letters = ""   # finding A needs two SOCKET imports on one semver track: never with a single one
         known = False
         if fails:
             need = set()
